@@ -62,7 +62,56 @@ func (s *Scen) exitStep(m *exitMsg) *Step {
 			}
 		}
 	}
-	return &Step{Topic: "exit", Desc: m.desc, Variant: m.variant, Bnd: bnd, Cond: cond, Key: map[string][]string{"exit": {keyIdx(m.validator)}}, Now: s.Now,
+	// position of the head relative to the deneb upgrade, for honest exits and for exits signed under another
+	// fork's version
+	sp := s.spec()
+	class := ""
+	switch {
+	case strings.HasPrefix(m.desc, "honest"):
+		class = "honest-exit"
+	case strings.HasPrefix(m.desc, "sig:") && strings.Contains(m.desc, "version"):
+		class = "other-fork-version-exit"
+	case m.desc == "sig:deneb-state-fork-domain":
+		class = "other-fork-version-exit"
+	}
+	if class != "" && sp.DENEB_FORK_EPOCH != chain.FarFuture {
+		where := ""
+		switch {
+		case cur+1 == sp.DENEB_FORK_EPOCH:
+			where = "last-pre-deneb-epoch"
+		case cur == sp.DENEB_FORK_EPOCH:
+			where = "first-deneb-epoch"
+		case cur == sp.DENEB_FORK_EPOCH+1:
+			where = "second-deneb-epoch"
+		}
+		if where != "" {
+			rel := "exit_epoch>=fork_epoch"
+			if m.epoch < sp.DENEB_FORK_EPOCH {
+				rel = "exit_epoch<fork_epoch"
+			}
+			tag := class + "@" + where + ":" + rel
+			if bnd != "" {
+				bnd += "|"
+			}
+			bnd += tag
+		}
+	}
+	small := func(e common.Epoch) int {
+		if e > 1000000 {
+			return 1000000
+		}
+		return int(e)
+	}
+	f := head.ForkData()
+	keyOK := uint64(m.validator) < head.ValidatorCount() && m.signer == head.KeyOf(m.validator) &&
+		m.dom.Type == common.DOMAIN_VOLUNTARY_EXIT && m.dom.GVR == s.V.GVR
+	xdom := map[string]int{"head_epoch": small(cur), "exit_epoch": small(m.epoch), "deneb_epoch": small(sp.DENEB_FORK_EPOCH),
+		"fork_epoch": small(f.Epoch), "prev": int(f.PreviousVersion[0]), "cur": int(f.CurrentVersion[0]),
+		"capella": int(sp.CAPELLA_FORK_VERSION[0]), "signed": int(m.dom.Version[0]), "key_ok": b2i(keyOK)}
+	if m.dom.Version[1] != 0 || m.dom.Version[2] != 0 || m.dom.Version[3] != sp.GENESIS_FORK_VERSION[3] {
+		xdom["signed"] = 255 // not a version of this network
+	}
+	return &Step{Topic: "exit", Desc: m.desc, Variant: m.variant, Bnd: bnd, Xdom: xdom, Cond: cond, Key: map[string][]string{"exit": {keyIdx(m.validator)}}, Now: s.Now,
 		Run: func(b *Backend) gossipval.GossipValidatorResult {
 			return gossipval.ValidateVoluntaryExit(context.Background(), signed, b)
 		}}
@@ -133,6 +182,17 @@ func (s *Scen) exitHistories(tier string, rng *rand.Rand) []*History {
 			m.sigOK = false
 		})
 		add("epoch:future", func(m *exitMsg) { m.epoch = cur + 1; m.dom = s.exitDomain(head, m.epoch) })
+		// signed under the version of every other fork of the schedule (incl. capella before deneb, deneb in deneb)
+		for _, fk := range []chain.Fork{chain.Phase0, chain.Altair, chain.Bellatrix, chain.Capella, chain.Deneb} {
+			ver := chain.ForkVersionOf(s.spec(), fk)
+			if chain.ForkEpochOf(s.spec(), fk) == chain.FarFuture && fk != chain.Phase0 {
+				continue
+			}
+			if ver != hm.dom.Version {
+				v := ver
+				add("sig:"+fk.String()+"-version", func(m *exitMsg) { m.dom.Version = v; m.sigOK = false })
+			}
+		}
 		if head.Fork() >= chain.Deneb {
 			// EIP-7044: get_domain(state, ...) (the deneb version) is no longer the right domain
 			add("sig:deneb-state-fork-domain", func(m *exitMsg) {
